@@ -414,3 +414,99 @@ def i2_size_hint_upper(prog):
                 r.viol('I2', 'finite-upper-without-inner-upper', f.loc(s['ln']),
                        'a finite upper bound is returned without the decision depending on the archetype iterator\'s upper bound: while archetypes remain, the reported upper bound can be below the number of results still to come')
     return r
+
+
+@rule('C9f', props=['C09'], floor=2, configs=('all',))
+def c9f_results_folder(prog):
+    """Parallel query folder: for an archetype that passes the `And<Views, Filter>` filter the partial
+    result of driving its parallel views is combined with (not substituted for) the results gathered so
+    far — `previous` of the returned folder depends on both the old `previous` and the new result, through
+    the base consumer's reducer when both exist; an archetype that does not pass is skipped leaving the
+    folder unchanged; `complete` hands out the accumulated result."""
+    r = Result()
+    fs = [f for f in prog.fns.values() if f.name == 'consume' and f.impl and is_adt(f.impl['self'], 'query::result::par_iter::ResultsFolder')]
+    if len(fs) != 1:
+        r.viol('C9f', 'consume/missing', '-', 'ResultsFolder::consume not found')
+        return r
+    f = fs[0]
+    body = f.body
+    r.inst('ResultsFolder::consume')
+    filt = [(b, t) for b, t in body.calls(lambda c: c['name'] == 'filter' and 'contains::filter' in c['path'])]
+    drive = [(b, t) for b, t in body.calls(lambda c: c['name'] in ('drive_unindexed', 'drive'))]
+    red = [(b, t) for b, t in body.calls(lambda c: c['name'] == 'reduce')]
+    pv = [(b, t) for b, t in body.calls(lambda c: c['name'] == 'par_view' and c['path'].startswith('archetype::Archetype'))]
+    if len(filt) != 1 or len(drive) != 1 or len(pv) != 1:
+        r.viol('C9f', 'consume/shape', f.loc(), 'consume must filter the archetype, view it in parallel and drive the views exactly once (filter=%d par_view=%d drive=%d)' % (len(filt), len(pv), len(drive)))
+        return r
+    g = [a for a in filt[0][1]['f']['args'] if a.get('k') != 'region']
+    if not any(is_adt(a, 'query::filter::And') for a in g):
+        r.viol('C9f', 'consume/filter-not-and', f.loc(filt[0][1]['ln']), 'archetypes must be selected with And<Views, Filter>')
+    adt = prog.adts.get('query::result::par_iter::ResultsFolder')
+    names = [x['name'] for x in adt['variants'][0]['fields']]
+    pi = names.index('previous')
+    res_l = drive[0][1]['dest']['l']
+    der_res = derived(body, {res_l})
+    # folder aggregates on the filter-true side
+    cl = filt[0][1]['dest']['l']
+    from .mir import bool_switches
+    sws = bool_switches(body, cl)
+    if len(sws) != 1:
+        r.viol('C9f', 'consume/filter-branch', f.loc(), 'filter result does not control a two-way branch')
+        return r
+    sb, t_true, t_false = sws[0]
+    aggs = [(b, i, s) for b, i, s in body.stmts() if s['k'] == 'assign' and s['rv']['k'] == 'agg' and s['rv'].get('path') == 'query::result::par_iter::ResultsFolder']
+    if not aggs:
+        r.viol('C9f', 'consume/no-new-folder', f.loc(), 'no folder is built from the new partial result')
+    for b, i, s in aggs:
+        if not body.edge_dominates((sb, t_true), b):
+            r.viol('C9f', 'consume/folder-on-skip-path', f.loc(s['ln']), 'a new folder is built on the path where the archetype does not match')
+        pl = op_local(s['rv']['ops'][pi])
+        if pl is None or pl not in der_res:
+            r.viol('C9f', 'consume/result-dropped', f.loc(s['ln']), 'the partial result of this archetype does not reach the folder\'s accumulated result: its entities are silently lost')
+    # reduce(previous, result) takes the old previous and the new result
+    if len(red) != 1:
+        r.viol('C9f', 'consume/no-reduce', f.loc(), 'results of two archetypes are not combined with the consumer\'s reducer')
+    else:
+        rb, rt = red[0]
+        args = [op_local(a) for a in rt['args'][1:]]
+        has_res = any(a in der_res for a in args if a is not None)
+        has_prev = False
+        for a in rt['args'][1:]:
+            l = op_local(a)
+            if l is None:
+                continue
+            acc = access_of_local(body, l)
+            fl = [s_[1] for s_ in acc.steps if isinstance(s_, tuple) and s_[0] == 'f']
+            if acc.root == 1 and fl and fl[0] == pi:
+                has_prev = True
+            d = resolve_def(body, l)
+            if d and d[0] == 'assign' and d[3]['rv']['k'] == 'use':
+                p = op_place(d[3]['rv']['op'])
+                if p and p['l'] == 1 and any(isinstance(e, dict) and e.get('f') == pi for e in p['p']):
+                    has_prev = True
+                if p:
+                    a2 = access_of_place(body, p)
+                    fl2 = [s_[1] for s_ in a2.steps if isinstance(s_, tuple) and s_[0] == 'f']
+                    if a2.root == 1 and fl2 and fl2[0] == pi:
+                        has_prev = True
+        if not (has_res and has_prev):
+            r.viol('C9f', 'consume/reduce-operands', f.loc(rt['ln']), 'the reducer must combine the previously accumulated result with this archetype\'s result (previous: %s, new result: %s)' % (has_prev, has_res))
+    # complete
+    cs = [g_ for g_ in prog.fns.values() if g_.name == 'complete' and g_.impl and is_adt(g_.impl['self'], 'query::result::par_iter::ResultsFolder')]
+    if len(cs) != 1:
+        r.viol('C9f', 'complete/missing', '-', 'ResultsFolder::complete not found')
+    else:
+        c = cs[0]
+        cb = c.body
+        r.inst('ResultsFolder::complete')
+        reads_prev = False
+        for b, i, s in cb.stmts():
+            if s['k'] == 'assign' and s['place']['l'] == 0:
+                for p in rv_operands(s['rv']):
+                    a = access_of_place(cb, p)
+                    fl = [s_[1] for s_ in a.steps if isinstance(s_, tuple) and s_[0] == 'f']
+                    if a.root == 1 and fl and fl[0] == pi:
+                        reads_prev = True
+        if not reads_prev:
+            r.viol('C9f', 'complete/previous-dropped', c.loc(), 'complete does not return the accumulated result')
+    return r
